@@ -60,11 +60,11 @@ type RefFS struct {
 	maxSize int64
 
 	// instrumentation
-	log      []string             // every call, "Op arg arg -> errno"
-	logOn    bool
-	gate     func(call string)    // called (without the lock) before each call; may block
-	fault    func(call string) error // non-nil error => the call fails with it before touching state
-	panicOn  string               // op name that panics when called
+	log     []string // every call, "Op arg arg -> errno"
+	logOn   bool
+	gate    func(call string)       // called (without the lock) before each call; may block
+	fault   func(call string) error // non-nil error => the call fails with it before touching state
+	panicOn string                  // op name that panics when called
 }
 
 func NewRefFS() *RefFS {
@@ -231,13 +231,13 @@ type rinfo struct {
 	ino   uint64
 }
 
-func (i *rinfo) Name() string       { return i.name }
-func (i *rinfo) Size() int64        { return i.size }
-func (i *rinfo) Mode() os.FileMode  { return i.mode }
-func (i *rinfo) ModTime() time.Time { return i.mtime }
-func (i *rinfo) IsDir() bool        { return i.mode.IsDir() }
-func (i *rinfo) Sys() any           { return i }
-func (i *rinfo) Type() fs.FileMode  { return i.mode.Type() }
+func (i *rinfo) Name() string               { return i.name }
+func (i *rinfo) Size() int64                { return i.size }
+func (i *rinfo) Mode() os.FileMode          { return i.mode }
+func (i *rinfo) ModTime() time.Time         { return i.mtime }
+func (i *rinfo) IsDir() bool                { return i.mode.IsDir() }
+func (i *rinfo) Sys() any                   { return i }
+func (i *rinfo) Type() fs.FileMode          { return i.mode.Type() }
 func (i *rinfo) Info() (fs.FileInfo, error) { return i, nil }
 
 func infoOf(name string, n *rnode) *rinfo {
@@ -653,9 +653,9 @@ func (r *RefFS) Sub(dir string) (fs.FS, error) { return nil, absfs.ErrNotImpleme
 
 // ---- FileSystem ----
 
-func (r *RefFS) Chdir(dir string) error        { return nil }
-func (r *RefFS) Getwd() (string, error)        { return "/", nil }
-func (r *RefFS) TempDir() string               { return "/tmp" }
+func (r *RefFS) Chdir(dir string) error               { return nil }
+func (r *RefFS) Getwd() (string, error)               { return "/", nil }
+func (r *RefFS) TempDir() string                      { return "/tmp" }
 func (r *RefFS) Open(name string) (absfs.File, error) { return r.OpenFile(name, os.O_RDONLY, 0) }
 func (r *RefFS) Create(name string) (absfs.File, error) {
 	call := "Create " + name
